@@ -229,7 +229,7 @@ def eval_write_route(hroute, factory, method, specs, order, contigs, typed, sort
 def route_cases(ctx, out):
     import tempfile
     rng = ctx.rng("c10-routes")
-    contig_sets = [None, ["chr1", "chr10", "chr2", "chrX"], ["chr1", "chr2", "chr10", "chrX"], ["chrX", "chr10", "chr2", "chr1"], ["chr2", "chr10", "chr1", "chrX"]]
+    contig_sets = [None, ["chr1", "chr10", "chr2", "chrX"], ["chr1", "chr2", "chr10", "chrX"], ["chrX", "chr10", "chr2", "chr1"], ["chr2", "chr10", "chr1", "chrX"], SC.LONG_CHR]
     reqs, meta = [], []
     with tempfile.TemporaryDirectory() as tmp:
         for tag in range(ctx.scale(90, 800)):
@@ -274,7 +274,7 @@ def run(ctx):
                 "every permutation of small multisets (n <= 4, thorough n <= 5) plus random orders of larger ones; sorting on and off; the produced file is re-read by the library's reader; "
                 "non-trivial = sorting on with >= 2 records; distinct (header, record order)")
     rng = ctx.rng("c10")
-    contig_sets = [None, ["chr1", "chr10", "chr2", "chrX"], ["chr1", "chr2", "chr10", "chrX"], ["chrX", "chr10", "chr2", "chr1"]]
+    contig_sets = [None, ["chr1", "chr10", "chr2", "chrX"], ["chr1", "chr2", "chr10", "chrX"], ["chrX", "chr10", "chr2", "chr1"], SC.LONG_CHR]
     reqs, meta = [], []
     for _ in range(ctx.scale(60, 500)):
         typed = rng.random() < 0.5
